@@ -40,7 +40,7 @@ func (o *in) fireCmd() error {
 	cmd.Stdout = wr
 	err := cmd.Start()
 	if err != nil {
-		o.Lock()
+		// the lock is still held here
 		o.hasProc = false
 		o.Unlock()
 		return err
